@@ -38,6 +38,19 @@ Theorem C20_wellknown_window : forall rs filter off buflen,
 Proof. exact lf_wellknown_window. Qed.
 Print Assumptions C20_wellknown_window.
 
+(* the same whatever bytes lie behind a path or an attribute value in its memory object
+   (term = [0] for the library's copies, [] for exact-size strings handed over with the
+   RELEASE flags): the code reads only inside [s, s + length) *)
+Theorem C20_wellknown_window_any_storage : forall term rs filter off buflen,
+  0 <= off -> 0 <= buflen <= lf_status_max ->
+  lf_print_wellknown_g true term rs filter off buflen =
+  LfVal {| lf_rstatus := LfDone (len (lf_window off buflen (lf_listing (lf_selected filter rs))))
+                                (lf_trunc_spec off buflen (len (lf_listing (lf_selected filter rs))));
+           lf_rbytes := lf_window off buflen (lf_listing (lf_selected filter rs));
+           lf_rtotal := len (lf_listing (lf_selected filter rs)) |}.
+Proof. exact lf_wellknown_window_term. Qed.
+Print Assumptions C20_wellknown_window_any_storage.
+
 (* for a non-empty buffer the truncation flag is set exactly when listing remains beyond the
    window; the number of bytes written in closed form *)
 Theorem C20_trunc_rule : forall off buflen (l : bytes),
@@ -71,8 +84,8 @@ Print Assumptions C20_match_relation.
 (* the query split stays inside the query string, and the per-resource decision of
    coap_print_wellknown_lkd is lf_filter_spec: href / rt / if / rel / other attributes, exact,
    prefix '*', token-wise, quoted and unquoted and empty values *)
-Theorem C20_filter_spec : forall q r,
-  exists f, lf_split_filter true q = LfVal f /\ lf_select true f r = LfVal (lf_filter_spec q r).
+Theorem C20_filter_spec : forall term q r,
+  exists f, lf_split_filter true q = LfVal f /\ lf_select true term f r = LfVal (lf_filter_spec q r).
 Proof. exact lf_filter_spec_ok. Qed.
 Print Assumptions C20_filter_spec.
 
@@ -135,7 +148,7 @@ Print Assumptions C20_nonvacuous.
 Theorem C20_match_unguarded_refuted :
   (exists text pat, lf_inb text /\ lf_inb pat /\ lf_match false text (Some pat) true true = LfOob) /\
   (exists rs q, lf_table_ok rs = true /\ lf_selected (Some q) rs = [] /\
-     exists r, lf_print_wellknown_g false rs (Some q) 0 64 = LfVal r /\ lf_rtotal r <> 0).
+     exists r, lf_print_wellknown_g false [0] rs (Some q) 0 64 = LfVal r /\ lf_rtotal r <> 0).
 Proof. exact lf_match_unguarded_refuted. Qed.
 Print Assumptions C20_match_unguarded_refuted.
 
@@ -143,7 +156,7 @@ Print Assumptions C20_match_unguarded_refuted.
    length 1 - 2 in size_t and read far outside the value (segmentation fault on the real code) *)
 Theorem C20_lone_quote_refuted :
   exists rs q, lf_table_ok rs = false /\
-    lf_print_wellknown_g false rs (Some q) 0 64 = LfOob /\
+    lf_print_wellknown_g false [0] rs (Some q) 0 64 = LfOob /\
     lf_print_wellknown rs (Some q) 0 64 =
     LfVal {| lf_rstatus := LfDone 0 false; lf_rbytes := []; lf_rtotal := 0 |}.
 Proof. exact lf_lone_quote_refuted. Qed.
